@@ -97,6 +97,7 @@ ORACLES = {
             _oracle('nested negation, two variables', 100, 1500, nvars=2, depth=2, neg=True, nested_neg=True)],
     'C06': [_oracle('the() vs number of solutions, evaluated twice', 200, 3000, kind='the'),
             _oracle('the() with a unique / no / several solutions (threshold conditions)', 150, 2000, kind='the', n=4, distinct_sizes=True),
+            _oracle('the() over and_(or_(..), .., ..), evaluated twice', 100, 1500, kind='the', n=4, distinct_sizes=True, shape='and_or'),
             _oracle('the() over equal-looking distinct instances', 60, 600, kind='the', equal_instances=True),
             _oracle('the() evaluated inside a symbolic block', 60, 600, kind='the', inside='query')],
     'C08': [_oracle('interleavings of blocks and result iterators', 150, 3000, kind='modes', steps=10)],
